@@ -117,7 +117,7 @@ func startLedDeviceRO(cfg config.DeviceConfig, d *Desc, event string, index, por
 func startLedDeviceCap(cfg config.DeviceConfig, d *Desc, event string, index, port int, midiIn <-chan midi.Event, outCap int) *ledDevice {
 	ld := &ledDevice{in: make(chan *input.InputEvent), out: make(chan midi.Event, outCap), done: make(chan string, 1), index: index}
 	ld.inDev = ledInputDevice(d, event)
-	ld.dev = device.NewDevice(ld.inDev, cfg, ld.out, midiIn, true, port, make(chan os.Signal, 16))
+	ld.dev = device.NewDevice(ld.inDev, cfg, ld.out, midiIn, ledDeviceNoLogs, port, make(chan os.Signal, 16))
 	go func() {
 		defer func() {
 			if p := recover(); p != nil {
@@ -131,6 +131,10 @@ func startLedDeviceCap(cfg config.DeviceConfig, d *Desc, event string, index, po
 	}()
 	return ld
 }
+
+// ledDeviceNoLogs: whether the devices of the case that is running are created with their logging switched off
+// (one case at a time per process)
+var ledDeviceNoLogs = true
 
 var ledSyn = &input.InputEvent{Event: evdev.InputEvent{Type: evdev.EV_SYN}}
 
@@ -930,6 +934,21 @@ func genC17(t *rapid.T) C17Case {
 				m = []byte{0x90 | byte(ch), byte(note), byte(rapid.IntRange(1, 127).Draw(t, "vel"))}
 			}
 			c.Steps = append(c.Steps, LedStep{T: "midi", Midi: m})
+			// now and then the same pitch is struck twice (or three times) before its one release - a retriggering arpeggiator,
+			// an overdub: one Note Off / Note On with velocity 0 clears the highlight however often the note was struck
+			if m[0]&0xf0 == 0x90 && m[2] > 0 && rapid.IntRange(0, 3).Draw(t, "struckAgain") == 0 {
+				for k := rapid.IntRange(1, 2).Draw(t, "strikes"); k > 0; k-- {
+					c.Steps = append(c.Steps, LedStep{T: "midi", Midi: []byte{m[0], m[1], byte(rapid.IntRange(1, 127).Draw(t, "vel2"))}})
+				}
+				if rapid.IntRange(0, 2).Draw(t, "observeStruck") == 0 {
+					c.Steps = append(c.Steps, LedStep{T: "observe"})
+				}
+				rel := []byte{0x80 | m[0]&0x0f, m[1], 0}
+				if rapid.Bool().Draw(t, "relVel0") {
+					rel = []byte{m[0], m[1], 0}
+				}
+				c.Steps = append(c.Steps, LedStep{T: "midi", Midi: rel}, LedStep{T: "observe"})
+			}
 		default:
 		}
 		if rapid.IntRange(0, 9).Draw(t, "observe") < 6 {
